@@ -35,7 +35,8 @@ Pfx     == [i \in 1 .. PrefixLen |-> "a"]
 NtIndex(A) == CHOOSE i \in 1 .. Len(NTS) : NTS[i] = A
 Later(i) == { NTS[j] : j \in (i + 1) .. Len(NTS) }
 ChainPool(i) == {<<>>} \cup { <<t>> : t \in TERMS } \cup { <<N>> : N \in Later(i) } \cup { <<N, t>> : N \in Later(i), t \in TERMS }
-AltPool == IF Pool = "chain" THEN UNION { ChainPool(i) : i \in 1 .. Len(NTS) }
+AltPool == IF Pool = "terms" THEN { Pfx \o t : t \in UNION { [1 .. n -> TERMS] : n \in 0 .. MaxLen } }     \* terminals only
+           ELSE IF Pool = "chain" THEN UNION { ChainPool(i) : i \in 1 .. Len(NTS) }
            ELSE IF Pool = "nts"
              THEN {<<>>} \cup { <<t>> : t \in TERMS } \cup UNION { [1 .. n -> NtSet] : n \in 2 .. MaxLen }
              ELSE { Pfx \o t : t \in UNION { [1 .. n -> Symbols] : n \in 0 .. MaxLen } }
